@@ -3,6 +3,8 @@ package main
 import (
 	"fmt"
 	"math/rand"
+	"path/filepath"
+	"strings"
 	"sync"
 	"time"
 
@@ -12,7 +14,16 @@ import (
 
 // C19: traffic goes only to healthy upstream servers, backups last.
 
+type c19World struct {
+	name string
+	farm *hx.Farm
+	addr string
+	cl   *hx.Client
+}
+
 type c19Group struct {
+	w       *c19World
+	World   string   `json:"world"`
 	ID      int      `json:"id"`
 	Policy  string   `json:"policy"`
 	Ping    string   `json:"health_check"` // "" = port check
@@ -24,7 +35,7 @@ type c19Group struct {
 
 func c19(r *hx.Run) {
 	r.Level = "fault_enumeration"
-	r.Rule = "G upstream groups in one pike process, each with 1-4 servers (every primary/backup mix incl. backups only), policy from {roundRobin, first, random, leastconn, default}, health check by ping path or by port. Phases: initial (all up), then random up/down vectors (all down, primaries down, one down, ...), finally all up again; servers are really stopped and restarted on the same port. After each change the driver waits until a live server of the group has seen two complete health-check rounds that began after the change (pings/connections are visible at the origins; 11.5 s when nothing is alive), then sends 12 sequential requests per group: each must be served by a healthy primary, or by a healthy backup only if no primary is healthy; roundRobin counts over healthy primaries differ by <= 1; with nothing healthy every request gets a 5xx within 2 s; after recovery traffic resumes. Non-trivial = settled phase with at least one server down; distinct = (policy, ping kind, backup mix, up vector)."
+	r.Rule = "G upstream groups in one in-process pike (whose unchanged configuration is re-applied before odd phases) plus two groups behind the real binary (eight round-robin primaries; primary+backup with policy first; all down / all up alternately, so that more than eight transitions to sick happen), each with 1-4 servers (every primary/backup mix incl. backups only), policy from {roundRobin, first, random, leastconn, default}, health check by ping path or by port. Phases: initial (all up), then random up/down vectors (all down, primaries down, one down, ...), finally all up again; servers are really stopped and restarted on the same port. After each change the driver waits until a live server of the group has seen two complete health-check rounds that began after the change (pings/connections are visible at the origins; 11.5 s when nothing is alive), then sends 12 sequential requests per group: each must be served by a healthy primary, or by a healthy backup only if no primary is healthy; roundRobin counts over healthy primaries differ by <= 1; with nothing healthy every request gets a 5xx within 2 s; after recovery traffic resumes. Non-trivial = settled phase with at least one server down; distinct = (policy, ping kind, backup mix, up vector)."
 	r.Assume = []string{"the health checker's 5 s ticker has no clock seam: settling is observed, the run is wall-clock bound", "behaviour inside the unsettled window is not judged"}
 	rnd := rand.New(rand.NewSource(r.Seed))
 	nGroups := r.Pick(14, 60)
@@ -66,13 +77,54 @@ func c19(r *hx.Run) {
 		return cfg
 	})
 	defer w.Farm.Close()
-	w.Farm.SetScript(func(f *hx.Fetch) *hx.Reply {
+	okScript := func(f *hx.Fetch) *hx.Reply {
 		return &hx.Reply{Status: 200, Header: [][2]string{{"Cache-Control", "no-store"}}, Body: []byte("ok")}
-	})
+	}
+	w.Farm.SetScript(okScript)
+	inproc := &c19World{name: "inproc", farm: w.Farm, addr: w.Addr, cl: w.Cl}
+	for _, g := range groups {
+		g.w, g.World = inproc, "inproc"
+	}
+	// the real binary (its status listener and alarm path are part of main.go): one round-robin group
+	// of eight primaries and one group with a backup, no --alarm URL
+	var procPike *hx.Pike
+	if bin, err := hx.BuildPike(r.Scratch); err != nil {
+		r.Inconclusive("cannot build pike: " + err.Error())
+	} else {
+		pf := hx.NewFarm(10, nil)
+		defer pf.Close()
+		pf.SetScript(okScript)
+		pp := hx.FreePorts(1)
+		pw := &c19World{name: "proc", farm: pf, addr: srvAddr(pp[0]), cl: hx.NewClient(nil)}
+		g1 := &c19Group{w: pw, World: "proc", ID: 1000, Policy: "roundRobin", Backup: make([]bool, 8), Servers: []int{0, 1, 2, 3, 4, 5, 6, 7}, Up: []bool{true, true, true, true, true, true, true, true}}
+		g2 := &c19Group{w: pw, World: "proc", ID: 1001, Policy: "first", Ping: "/ping", Backup: []bool{false, true}, Servers: []int{8, 9}, Up: []bool{true, true}}
+		pcfg := &config.PikeConfig{Caches: []config.CacheConfig{{Name: "c19", Size: 1000, HitForPass: "5m"}}}
+		var names []string
+		for _, g := range []*c19Group{g1, g2} {
+			u := config.UpstreamConfig{Name: fmt.Sprintf("g%d", g.ID), Policy: g.Policy, HealthCheck: g.Ping}
+			for i, oi := range g.Servers {
+				u.Servers = append(u.Servers, config.UpstreamServerConfig{Addr: pf.Origins[oi].URL(), Backup: g.Backup[i]})
+			}
+			pcfg.Upstreams = append(pcfg.Upstreams, u)
+			pcfg.Locations = append(pcfg.Locations, config.LocationConfig{Name: fmt.Sprintf("l%d", g.ID), Upstream: u.Name, Prefixes: []string{fmt.Sprintf("/g%d/", g.ID)}})
+			names = append(names, fmt.Sprintf("l%d", g.ID))
+		}
+		pcfg.Servers = []config.ServerConfig{{Addr: pw.addr, Locations: names, Cache: "c19"}}
+		procPike, err = hx.NewPike(bin, filepath.Join(r.Scratch, "c19-proc"), pcfg, 0)
+		if err == nil {
+			_, err = procPike.Start([]string{pw.addr}, 30*time.Second)
+		}
+		if err != nil {
+			r.Inconclusive("real pike does not start: " + err.Error())
+		} else {
+			defer procPike.Kill()
+			groups = append(groups, g1, g2)
+		}
+	}
 	reqN := 0
 	// activity of a server's health checks: pings (path check) or new connections (port check)
 	activity := func(g *c19Group, i int) int64 {
-		o := w.Farm.Origins[g.Servers[i]]
+		o := g.w.farm.Origins[g.Servers[i]]
 		if g.Ping != "" {
 			return o.Pings.Load()
 		}
@@ -142,10 +194,15 @@ func c19(r *hx.Run) {
 				reqN++
 				// quiet connection churn on port-checked servers: the client request itself opens none to the origin directly
 				t0 := time.Now()
-				before := w.Farm.LogLen()
-				res := w.Cl.Do(hx.Req{Method: "POST", Addr: w.Addr, Host: "c19.example", URI: fmt.Sprintf("/g%d/r?n=%d", g.ID, reqN), Body: []byte("x"), Timeout: 8 * time.Second})
+				before := g.w.farm.LogLen()
+				res := g.w.cl.Do(hx.Req{Method: "POST", Addr: g.w.addr, Host: "c19.example", URI: fmt.Sprintf("/g%d/r?n=%d", g.ID, reqN), Body: []byte("x"), Timeout: 8 * time.Second})
 				dt := time.Since(t0)
-				fs := w.Farm.LogSince(before)
+				var fs []*hx.Fetch
+				for _, f := range g.w.farm.LogSince(before) {
+					if strings.HasPrefix(f.URI, fmt.Sprintf("/g%d/", g.ID)) {
+						fs = append(fs, f)
+					}
+				}
 				r.Eval(1)
 				r.Add("requests_in_settled_phases", 1)
 				if len(allowed) == 0 {
@@ -214,11 +271,23 @@ func c19(r *hx.Run) {
 	judge("initial")
 	for ph := 1; ph <= phases && !r.TooMany(); ph++ {
 		last := ph == phases
+		if ph%2 == 1 {
+			// the unchanged configuration is applied again (as any unrelated configuration change does):
+			// health checking must go on afterwards
+			if err := hx.Apply(w.Cfg); err != nil {
+				r.Inconclusive("re-apply failed: " + err.Error())
+			}
+			r.Add("configuration_reapplied_before_phase", 1)
+		}
 		changedAt := time.Now()
 		for _, g := range groups {
 			for i := range g.Up {
 				want := true
-				if !last {
+				if g.World == "proc" && !last {
+					// the real binary: everything down in odd phases, everything up in even ones
+					// (many transitions to "sick" over the process lifetime)
+					want = ph%2 == 0
+				} else if !last {
 					switch (g.ID + ph) % 4 {
 					case 0:
 						want = false // everything down
@@ -230,7 +299,7 @@ func c19(r *hx.Run) {
 						want = rnd.Intn(2) == 0
 					}
 				}
-				o := w.Farm.Origins[g.Servers[i]]
+				o := g.w.farm.Origins[g.Servers[i]]
 				if want && !g.Up[i] {
 					if err := o.Up(); err != nil {
 						r.Inconclusive("cannot restart origin: " + err.Error())
